@@ -110,3 +110,51 @@ func verifHarness_C08_panicCommit() {
 	verifAssert(rec.preCommit == 0, "no body byte before the header")
 	verifCover("C08 panic commit")
 }
+
+
+// A rux handler mounted inside another rux handler (WrapHTTPHandler around a
+// HandlerFunc or a router): the inner one answers through the outer request's
+// writer, so there is still exactly one header commit, with the inner status,
+// and the outer context knows about it.
+func verifHarness_C08_nested() {
+	code := verifInt("code")
+	verifAssume(verifAnd(code >= 100, code <= 599))
+	write := verifChoice("innerWrites", 2) == 1
+	viaRouter := verifChoice("innerKind", 2) == 1
+	// (a bare HandlerFunc used as an http.Handler has no end-of-request commit of its own:
+	// a status it only records is not sent - see DESIGN 7.4 - so it writes here)
+	verifAssume(write || viaRouter)
+	var inner http.Handler = HandlerFunc(func(c *Context) {
+		c.SetStatus(code)
+		if write {
+			c.WriteString("in")
+		}
+	})
+	if viaRouter {
+		sub := New()
+		sub.GET("/x", func(c *Context) {
+			c.SetStatus(code)
+			if write {
+				c.WriteString("in")
+			}
+		})
+		inner = sub
+	}
+	outer := New()
+	outerStatus, outerWritten := 0, false
+	outer.Use(func(c *Context) {
+		c.Next()
+		outerStatus, outerWritten = c.StatusCode(), c.writer.Written()
+	})
+	outer.GET("/x", WrapHTTPHandler(inner))
+	rec := verifNewWriter()
+	k := verifCatch(func() { outer.ServeHTTP(rec, verifRequest("GET", "/x")) })
+	verifAssert(k == "", "serving through a nested rux handler does not panic")
+	verifAssert(rec.whCalls == 1 && rec.whStatus == code, "exactly one WriteHeader reaches the underlying writer, with the inner handler's status")
+	verifAssert(rec.preCommit == 0, "no body byte before the header")
+	if write {
+		verifAssert(string(rec.body) == "in", "the inner body is the response body")
+		verifAssert(outerWritten && outerStatus == code, "the outer context sees the commit and the status")
+	}
+	verifCover("C08 nested rux handler")
+}
